@@ -322,6 +322,32 @@ def run(ctx):
                     fl.PythonExporter(formatted=False, encapsulated=bool(i % 2)).to_string(term)  # judged by the monitor
                 except Exception:
                     pass
+        # a tighter comparison tolerance than the default one (settings.atol = 1e-6, six decimals): heights and weights that are
+        # further from 1 than *that* tolerance are written out and come back
+        for i, rnd in ctx.cases("tight tolerance", ctx.scale(24, 500)):
+            with fl.settings.context(atol=1e-6, decimals=6):
+                spec = E.gen_engine(rnd, activations=("General",), d=6, flags=False, locks=False, kinds=("integral", "tsukamoto"), max_rules=4, allow_output_antecedent=False)
+                near = [0.9995, 0.9992, 1.0005, 0.99999, 0.999]
+                for v in spec["inputs"] + spec["outputs"]:
+                    for t in v["terms"]:
+                        if t["cls"] not in ("Constant", "Linear", "Function") and rnd.random() < 0.5:
+                            t["height"] = rnd.choice([h for h in near if h <= 1.0])
+                for rb in spec["blocks"]:
+                    for r in rb["rules"]:
+                        if rnd.random() < 0.5:
+                            r["weight"] = rnd.choice(near)
+                            r["text"] = r["text"].split(" with ")[0] + f" with {r['weight']:.6f}"
+                try:
+                    engine = E.build(fl, spec)
+                    fl.PythonExporter(formatted=False, encapsulated=bool(i % 2)).to_string(engine)  # judged by the monitor
+                    if mon.last is not None:
+                        same_outputs(ctx, fl, rnd, spec, engine, mon.last)
+                    for c in components(fl, engine)[:12]:
+                        fl.PythonExporter(formatted=False).to_string(c)
+                except Exception as ex:
+                    ctx.hit(f"inconclusive:tight tolerance: {type(ex).__name__}: {str(ex)[:60]}")
+                    continue
+                ctx.hit("workload:comparison tolerance tighter than the default")
         # engines that are copies of other engines (used as they come), with terms that read the engine's variables: the code written
         # for the copy reconstructs the copy
         for i, rnd in ctx.cases("copies", ctx.scale(24, 500)):
@@ -397,7 +423,7 @@ def run(ctx):
             ctx.hit("workload:components of a user's own classes")
         probe.report(ctx)
         reach.report(ctx)
-    ctx.require("workload:copy of an engine with Function terms exported")
+    ctx.require("workload:copy of an engine with Function terms exported", "workload:comparison tolerance tighter than the default")
     ctx.require("route:copy-as-is", "route:deepcopy-as-is", *[f"environment:{e}" for e in ENVIRONMENTS])
     ctx.require("workload:components of a user's own classes", "workload:two classes of one name with different constructors", "compare:settings of a reconstructed component")
     ctx.require("workload:a rule was given a text that the parser rejected", "workload:rule weights assigned after the engine was written out", "workload:Discrete term with more than 500 pairs", "component:term built by factory and configure", "compare:dedicated method input_variable", "compare:dedicated method rule_block", "compare:dedicated method term", "compare:dedicated method norm")
